@@ -35,6 +35,37 @@ def arch_class(name):
     return 'N'
 
 
+PREFIX_BYTES = (0x66, 0x67, 0x2E, 0x36, 0x3E, 0x26, 0x64, 0x65, 0xF0, 0xF2, 0xF3)
+
+
+def arch_class_bytes(data):
+    """the architectural class from the opcode bytes themselves (independent of the name the decoder gives the instruction):
+    'U' block end without fall-through | 'C' block end with fall-through and destination | 'N' continues | None excluded (sys*)"""
+    k = 0
+    while k < len(data) and data[k] in PREFIX_BYTES:
+        k += 1
+    if k >= len(data):
+        return 'N'
+    b = data[k]
+    if b == 0x0F:
+        b2 = data[k + 1] if k + 1 < len(data) else 0
+        if b2 in (0x05, 0x07, 0x34, 0x35):
+            return None                  # syscall / sysret / sysenter / sysexit
+        if b2 == 0x0B:
+            return 'U'                   # ud2
+        if 0x80 <= b2 <= 0x8F:
+            return 'C'
+        return 'N'
+    if b in (0xC2, 0xC3, 0xCA, 0xCB, 0xCF, 0xE9, 0xEA, 0xEB, 0xF4):
+        return 'U'                       # ret, retf, iret, jmp (near, far, short), hlt
+    if 0x70 <= b <= 0x7F or b in (0xE0, 0xE1, 0xE2, 0xE3, 0xE8, 0x9A):
+        return 'C'                       # jcc, loopne/loope/loop/jecxz, call near / far
+    if b == 0xFF:
+        reg = (data[k + 1] >> 3) & 7 if k + 1 < len(data) else 0
+        return 'C' if reg in (2, 3) else 'U' if reg in (4, 5) else 'N'
+    return 'N'
+
+
 def worker_init():
     E.worker_init()
 
@@ -155,8 +186,23 @@ def run_class(job, res):
             return ('SKIP',)
         i = d.instr
         name = i.m.name
-        cl = arch_class(name)
-        if cl is None:
+        # class of the bytes (opcode and, for ff, the ModRM reg field are concrete on every path); the name-based class is kept as a
+        # cross-check of the table itself
+        lead = list(prefixes) + list(opc)
+        if last is not None:
+            classes = set(arch_class_bytes(lead + [v, 0]) for v in last)
+            if len(classes) > 1:
+                lead.append(int(eng.concretize(d.data.items[len(lead)].t)))
+            else:
+                lead.append(sorted(last)[0])
+        if lead[len(prefixes):][:1] == [0xFF] and len(lead) == len(prefixes) + 1:
+            modrm = d.data.items[len(lead)]
+            reg = modrm if isinstance(modrm, int) else None
+            if reg is None:
+                reg = int(eng.concretize(z3.Extract(5, 3, modrm.t))) << 3
+            lead.append(reg & 0x38)
+        cl = arch_class_bytes(lead + [0])
+        if cl is None or arch_class(name) is None:
             return ('SKIP',)
         bk, sp, dt = bool(i.breakflow()), bool(i.splitflow()), bool(i.dstflow())
         ok = (cl == 'U' and bk and not sp) or (cl == 'C' and bk and sp and dt) or (cl == 'N' and not bk and not sp)
@@ -212,8 +258,13 @@ def jobs(tier, seed):
     for opc, last, name, rel8 in branch_rows():
         for ps in ((), (0x66,), (0x67,), (0x2E,), (0x3E,), (0x66, 0x67)) if tier == 'thorough' else ((), (0x66,), (0x67,)):
             out.append(('arith', tuple(ps), opc, last, name, rel8))
-    for ej in E.make_jobs(tier, seed, prefix_sets=[()] if tier == 'quick' else [(), (0x66,), (0xF3,)], sib='min' if tier == 'quick' else 'reps', per_signature=(tier == 'quick')):
-        out.append(('class', ej))
+    if tier == 'quick':
+        # the classification is a property of the opcode row and its prefixes: every row, thinnest ModRM slice
+        for ej in E.make_jobs(tier, seed, prefix_sets=[(), (0x66,), (0x67,), (0xF3,)], sib='one', per_signature=False):
+            out.append(('class', ej))
+    else:
+        for ej in E.make_jobs(tier, seed, prefix_sets=[(), (0x66,), (0xF3,), (0x67,), (0x66, 0x66)], sib='reps', per_signature=False):
+            out.append(('class', ej))
     return out
 
 
@@ -237,7 +288,8 @@ bad = False
 UNCOND = {'jmp', 'jmpf', 'ret', 'retf', 'iret', 'hlt', 'ud2'}; CE = {'loop', 'loope', 'loopne', 'jecxz', 'call', 'callf'}
 if D['kind'] == 'class':
     data = bytes(D['vals']['bytes']); i = x86mnemo.dis(data); n = i.m.name
-    cl = None if n.startswith('sys') else 'U' if n in UNCOND else 'C' if (n in CE or (n.startswith('j') and n not in ('jmp', 'jmpf'))) else 'N'
+    from vf.checks import c17
+    cl = None if n.startswith('sys') else c17.arch_class_bytes(list(data))
     bk, sp, dt = bool(i.breakflow()), bool(i.splitflow()), bool(i.dstflow())
     print(data[:i.l].hex(), n, 'breakflow', bk, 'splitflow', sp, 'dstflow', dt, 'class', cl, 'next', i.getnextflow())
     bad = i.getnextflow() != i.l or not ((cl == 'U' and bk and not sp) or (cl == 'C' and bk and sp and dt) or (cl == 'N' and not bk and not sp) or cl is None)
